@@ -8,7 +8,7 @@ use crate::runner::{catch, finish, require_counter, run_recipes_opt, Ctx, Failur
 use serde_json::json;
 use std::sync::{Arc, Barrier};
 
-const SHAPES: [&str; 13] = [
+const SHAPES: [&str; 15] = [
     "slice",
     "chain-2",
     "chain-4",
@@ -22,6 +22,8 @@ const SHAPES: [&str; 13] = [
     "shared digit table (equal digits share one address)",
     "chain-6 (iterator type wider than 64 bytes)",
     "fat custom iterator (256 bytes of state)",
+    "boxed slice iterator (cursor behind a pointer)",
+    "rope iterator with its cursors in a Vec",
 ];
 
 fn gen_case(fmt: Fmt, r: &gen::Recipe, lim: Limits) -> Case {
@@ -81,7 +83,7 @@ fn check_case(fmt: Fmt, c: &Case, r: &gen::Recipe, stats: &mut Stats) -> Result<
             Fmt::F32 => cfg.shapes32,
             Fmt::F64 => cfg.shapes64,
         };
-        for s in 1..13u32 {
+        for s in 1..15u32 {
             let got = catch(|| shapes(&c.int, &c.frac, c.exp, s, salt.rotate_left(s)));
             if got != Ok(base) {
                 return Err(differ(fmt, cfg, c, &format!("shape:{}", SHAPES[s as usize]), base, got));
@@ -238,10 +240,10 @@ pub fn run(ctx: &Ctx) -> i32 {
     let lim: Limits = ctx.tier.pick(gen::QUICK, Limits { long: 10_000, huge: 100_000 });
     let mut rep = Report::new(
         "Differential against the baseline parse_float(int.iter(), frac.iter(), e) on fresh Vecs, per configuration \
-         (all 8) and format: (1) twelve other fused, cloneable iterator shapes yielding the same bytes (chain of 2 and of \
+         (all 8) and format: (1) fourteen other fused, cloneable iterator shapes yielding the same bytes (chain of 2 and of \
          4 slices at generated cut points, filter over interleaved separators, wrapped VecDeque, rev over reversed \
          storage, skip/take over padded storage, step_by(2), a hand-written chunk-list iterator with empty chunks, \
-         flat_map over chunks + map over single-byte arrays, map through one shared digit table so that equal digits have equal addresses, a chain of six slices and a 256-byte custom iterator - wide iterator types); (2) the same bytes at offsets 0..15 inside a larger heap \
+         flat_map over chunks + map over single-byte arrays, map through one shared digit table so that equal digits have equal addresses, a chain of six slices and a 256-byte custom iterator - wide iterator types, Box<slice::Iter> and a rope iterator with its cursors in a Vec - position behind a pointer); (2) the same bytes at offsets 0..15 inside a larger heap \
          buffer between guard bytes and adjacent digits, in a stack array, in boxed slices; (3) after a generated \
          history of other parses (other format, big-integer path, garbage bytes under catch_unwind) and two \
          stack-poisoning passes (position-dependent words, all zeros, all ones - so that a read of stale or never-written stack memory changes the outcome deterministically); (4) 16 threads parsing a shared list in thread-specific orders behind a barrier, \
